@@ -54,6 +54,16 @@ def diff_run(run, G, scen_args, prefix, nontrivial, label, known_key=None, tier=
         return 0, 0, 0
     cases = [l for l in lines if l.startswith(prefix + " ")]
     side = [l for l in lines if not l.startswith(prefix + " ")]
+    panics = [l for l in side if l.startswith("panic ")]
+    if panics:
+        import re as _re
+        m = _re.search(r"index=(\d+)", panics[0])
+        path = run.replay_path(label + "-panic")
+        json.dump({"property": run.pid, "kind": "the implementation panicked on this case (re-run with --replay to see the case: it is regenerated from scenario, tier, seed and index)",
+                   "scenario": scen_args, "tier": tier or run.tier, "seed": run.seed + seed_offset, "index": int(m.group(1)) if m else 0,
+                   "case_line": panics[0], "panics_total": len(panics),
+                   "replay": f"cd /verif && bin/check {run.pid} --replay {path}"}, open(path, "w"), indent=1)
+        run.violations.append(("impl", path, ""))
     mouts = G["run_model"](cases) if cases else []
     if mouts is None or len(mouts) != len(cases):
         path = run.replay_path(label + "-driver")
